@@ -684,6 +684,11 @@ func run(s *kernel.Sim, prop, cfg string) {
 
 		return
 	}
+	if prop == "C08" {
+		runC08(s, cfg)
+
+		return
+	}
 
 	t := s.T
 	u := buildUniverse(t)
